@@ -435,5 +435,13 @@ def c15_4(ctx: Ctx) -> RuleResult:
             res.add(run, call, "an abort raised by an observer/handler during this call is converted into the step's exit code", ok,
                     "" if ok else f"an abort raised by an observer/handler at {what} escapes {cname}.run as an exception: no USER_ABORT exit code, plan not latched", wit,
                     construct=f"{cname}: {what}")
+    # an abort in flight must not be replaced by a raise/return in a finally clause
+    from .c14 import c14_6
+
+    for i in c14_6(ctx).instances:
+        if "finally clause" in i.construct:
+            i.rule = "C15.4"
+            i.obligation = "an abort propagating through this finally clause is not replaced by another exception or a return"
+            res.instances.append(i)
     res.floor = 4
     return res
